@@ -1,6 +1,9 @@
 From Coq Require Import NArith Extraction ExtrOcamlBasic.
 From CyVerif Require Import Lib.CInt Model.M_StrLit.
+From CyVerif Require Model.M_LZSS Model.M_StrTab.
 Extraction "../ocaml/gen/m_strlit.ml" ex_keep lex_escape append_escape_sequence decode py_value visible
   big_octal encode_utf8 decode_utf8 uesc_encode unicode_escape_decode contains_surrogates
   index_width index_decl gen_table unpack_table compressions default_compression choose guard
-  c_array_of gen_image init_data init_table run_module py_object id_codec lzss_compress.
+  c_array_of gen_image init_data init_table run_module py_object id_codec lzss_compress
+  M_LZSS.tokenize M_LZSS.pack M_LZSS.decompress_string M_LZSS.encode_match
+  M_StrTab.ref_fields M_StrTab.form_of M_StrTab.lzss_unpack M_StrTab.refs_of.
